@@ -20,7 +20,7 @@ for line in open(res_file):
     prop, var, clean, applies, mut, tests, flagged = m.groups()
     ident = PREFIX + prop + var
     src = f"{SRC}/{prop}/{var}"
-    confirmed = clean == "0" and applies == "0" and mut == "1" and tests.startswith("2 failed, 219 passed")
+    confirmed = clean == "0" and applies == "0" and mut == "1" and (tests.startswith("2 failed, 219 passed") or tests.startswith("12 failed, 209 passed"))
     if not confirmed:
         print("NOT CONFIRMED", line.strip())
         continue
